@@ -1,10 +1,250 @@
-"""Kani units (bit-level, loop-free kernels).  Filled in by units/*/kani.py."""
-from .check import check_property
+"""Kani units: complete (loop-free, full-domain) proofs of bit-level kernels.  The harness module of a unit is
+appended, under #[cfg(kani)], to a scratch copy of /repo (never to /repo itself); `cargo kani` then checks the real
+functions.  On a failing harness the run is repeated with concrete playback and, where the unit has a replay
+template, the counterexample is replayed against the real code through the public evaluator."""
+import os
+import re
+import sys
+import json
+import time
+import shutil
+import subprocess
+import importlib.util
+
+from .assemble import ROOT, REPO, source
+from .extract import LostAnchor, DEFAULT_FEATURES
+from .lexer import fingerprint
+
+
+def kani_unit_names():
+    d = os.path.join(ROOT, 'units')
+    return sorted(n for n in os.listdir(d) if os.path.exists(os.path.join(d, n, 'kani.py')))
+
+
+def load_kani_unit(name):
+    d = os.path.join(ROOT, 'units', name)
+    spec = importlib.util.spec_from_file_location(f'vxkani_{name}', os.path.join(d, 'kani.py'))
+    m = importlib.util.module_from_spec(spec)
+    m.DIR, m.NAME = d, name
+    spec.loader.exec_module(m)
+    return m
 
 
 def kani_units_for(pid):
-    return []
+    return [n for n in kani_unit_names() if pid in getattr(load_kani_unit(n), 'PROPERTIES', [])]
 
 
-def check_property_with_kani(pid, tier, seed):
-    return check_property(pid, tier, seed)
+def scratch_root():
+    return os.environ.get('VERIF_KANI_SCRATCH') or f'/var/tmp/cedar-verif-kani.{os.getpid()}'
+
+
+def _fingerprints(unit):
+    fps = {}
+    for path in unit.FUNCTIONS:
+        sf = source(unit.TARGET)
+        first, last = sf.find(path, DEFAULT_FEATURES)
+        fps[path] = fingerprint(sf.item_tokens(first, last))
+    return fps
+
+
+def run_kani_unit(name, tier):
+    """Returns dict(status ok|fail|undecided, reason, harnesses{h: {status, checks, failed_checks, time_s, covers_sat}}, ...)"""
+    t0 = time.time()
+    R = {'unit': name, 'status': 'ok', 'reason': '', 'harnesses': {}, 'wall_s': 0.0, 'cmd': '', 'fingerprints': {}, 'scratch': None}
+    try:
+        unit = load_kani_unit(name)
+        R['fingerprints'] = _fingerprints(unit)
+    except (LostAnchor, FileNotFoundError) as e:
+        R['status'], R['reason'] = 'undecided', f'lost-anchor: {e}'
+        return R
+    hs = [h for h, d in unit.HARNESSES.items() if tier == 'thorough' or d.get('tier', 'quick') == 'quick']
+    S = scratch_root()
+    R['scratch'] = S
+    try:
+        if os.path.exists(S):
+            shutil.rmtree(S)
+        os.makedirs(S)
+        subprocess.run(['rsync', '-a', '--exclude', 'target', '--exclude', '.git', REPO + '/', S + '/'], check=True)
+        with open(os.path.join(S, unit.TARGET), 'a') as f, open(os.path.join(unit.DIR, unit.HARNESS_FILE)) as h:
+            f.write(h.read())
+        cmd = ['cargo', 'kani', '-p', unit.PACKAGE] + list(getattr(unit, 'KANI_FLAGS', []))
+        for h in hs:
+            cmd += ['--harness', h]
+        env = dict(os.environ, CARGO_NET_OFFLINE='true', CARGO_TARGET_DIR=os.path.join(S, 'target'))
+        R['cmd'] = 'CARGO_NET_OFFLINE=true ' + ' '.join(cmd) + f'   (in a scratch copy of /repo with units/{name}/{unit.HARNESS_FILE} appended to {unit.TARGET})'
+        to = int(os.environ.get('VERIF_KANI_TIMEOUT', '2400'))
+        try:
+            p = subprocess.run(cmd, cwd=S, env=env, capture_output=True, text=True, timeout=to)
+            out = p.stdout + '\n' + p.stderr
+        except subprocess.TimeoutExpired:
+            R['status'], R['reason'] = 'undecided', f'cargo kani timeout after {to}s'
+            return R
+        R['raw_tail'] = '\n'.join(l for l in out.split('\n') if not re.match(r'^(Unwinding|Not unwinding|aborting)', l))[-6000:]
+        cur = None
+        for line in out.split('\n'):
+            m = re.match(r'Checking harness (\S+?)\.\.\.', line)
+            if m:
+                cur = m.group(1).split('::')[-1]
+                R['harnesses'][cur] = {'status': 'unknown', 'checks': 0, 'failed': 0, 'failed_checks': [], 'time_s': None, 'covers_sat': 0, 'covers': 0}
+                continue
+            if cur is None:
+                continue
+            H = R['harnesses'][cur]
+            m = re.search(r'\*\* (\d+) of (\d+) failed', line)
+            if m:
+                H['failed'], H['checks'] = int(m.group(1)), int(m.group(2))
+            m = re.search(r'\*\* (\d+) of (\d+) cover properties satisfied', line)
+            if m:
+                H['covers_sat'], H['covers'] = int(m.group(1)), int(m.group(2))
+            if 'VERIFICATION:- SUCCESSFUL' in line:
+                H['status'] = 'ok'
+            elif 'VERIFICATION:- FAILED' in line:
+                H['status'] = 'fail'
+            m = re.search(r'Verification Time: ([0-9.]+)s', line)
+            if m:
+                H['time_s'] = float(m.group(1))
+        # failed check descriptions
+        for m in re.finditer(r'Check \d+: (\S+)\n\s+- Status: FAILURE\n\s+- Description: "([^"]*)"', out):
+            for h, H in R['harnesses'].items():
+                if ('::' + h + '.') in m.group(1) or m.group(1).split('.')[0].endswith(h):
+                    H['failed_checks'].append(m.group(2))
+        missing = [h for h in hs if h not in R['harnesses'] or R['harnesses'][h]['status'] == 'unknown']
+        if missing:
+            R['status'] = 'undecided'
+            R['reason'] = 'no verdict for harness(es) ' + ', '.join(missing) + ' (build or tool error): ' + ' | '.join(l for l in out.split('\n') if l.startswith('error'))[:600]
+            return R
+        # vacuity: every harness with cover! statements must satisfy them all
+        for h in hs:
+            H = R['harnesses'][h]
+            if H['covers'] and H['covers_sat'] < H['covers']:
+                R['status'], R['reason'] = 'undecided', f'harness {h}: only {H["covers_sat"]} of {H["covers"]} cover properties satisfied (vacuous precondition?)'
+                return R
+        if any(R['harnesses'][h]['status'] == 'fail' for h in hs):
+            R['status'] = 'fail'
+            # counterexamples
+            for h in hs:
+                if R['harnesses'][h]['status'] == 'fail':
+                    R['harnesses'][h]['playback'] = _playback(unit, S, env, h)
+                    if hasattr(unit, 'replay'):
+                        try:
+                            R['harnesses'][h]['replay'] = unit.replay(h, R['harnesses'][h]['playback'], S, env)
+                        except Exception as e:  # replay is best effort
+                            R['harnesses'][h]['replay'] = {'confirmed': False, 'error': repr(e)}
+        return R
+    finally:
+        R['wall_s'] = time.time() - t0
+        if os.environ.get('VERIF_KEEP_SCRATCH') != '1':
+            shutil.rmtree(S, ignore_errors=True)
+
+
+def _playback(unit, S, env, h):
+    cmd = ['cargo', 'kani', '-p', unit.PACKAGE, '-Z', 'concrete-playback', '--concrete-playback=print', '--harness', h] + list(getattr(unit, 'KANI_FLAGS', []))
+    try:
+        p = subprocess.run(cmd, cwd=S, env=env, capture_output=True, text=True, timeout=1200)
+    except subprocess.TimeoutExpired:
+        return {'values': None, 'test': None}
+    out = p.stdout
+    m = re.search(r'```\n(.*?)```', out, re.S)
+    test = m.group(1) if m else None
+    vals = []
+    if test:
+        # each symbolic value: "// <decimal>\n vec![bytes]"
+        for mm in re.finditer(r'//\s*(-?\d+|true|false|[^\n]*)\n\s*vec!\[([^\]]*)\]', test):
+            bs = [int(x) for x in mm.group(2).split(',') if x.strip()]
+            vals.append({'comment': mm.group(1).strip(), 'bytes': bs, 'le_uint': int.from_bytes(bytes(bs), 'little')})
+    return {'values': vals, 'test': test}
+
+
+def load_kani_registry(name):
+    p = os.path.join(ROOT, 'units', name, 'kani_registry.json')
+    if not os.path.exists(p):
+        return None
+    with open(p) as f:
+        return json.load(f)
+
+
+def register_kani(name):
+    R = run_kani_unit(name, 'thorough')
+    if R['status'] != 'ok':
+        print(f'cannot register kani unit {name}: {R["status"]} {R["reason"]}')
+        print(R.get('raw_tail', '')[-3000:])
+        return 1
+    reg = {'unit': name, 'harnesses': {h: 'pass' for h in R['harnesses']}, 'fingerprints': R['fingerprints'],
+           'checks': {h: H['checks'] for h, H in R['harnesses'].items()}}
+    with open(os.path.join(ROOT, 'units', name, 'kani_registry.json'), 'w') as f:
+        json.dump(reg, f, indent=1, sort_keys=True)
+        f.write('\n')
+    print(f'registered kani unit {name}: {len(reg["harnesses"])} harnesses, wall {R["wall_s"]:.0f}s')
+    return 0
+
+
+def check_property_with_kani(pid, tier, seed, out=sys.stdout):
+    """Verus units first (writes the evidence file), then the Kani units of the property; the evidence file is
+    extended with the Kani results."""
+    from .check import check_property
+    kunits = kani_units_for(pid)
+    if not kunits:
+        return check_property(pid, tier, seed, out)
+    rc = check_property(pid, tier, seed, out, quiet_summary=True)
+    evp = os.path.join(ROOT, 'evidence', f'{pid}.json')
+    ev = json.load(open(evp)) if os.path.exists(evp) else None
+    violations, undecided = [], []
+    kres = []
+    for n in kunits:
+        unit = load_kani_unit(n)
+        reg = load_kani_registry(n)
+        R = run_kani_unit(n, tier)
+        kres.append(R)
+        if R['status'] == 'undecided':
+            undecided.append((n, R['reason']))
+            continue
+        if reg is None:
+            undecided.append((n, 'kani unit not registered'))
+            continue
+        changed = R['fingerprints'] != reg['fingerprints']
+        for h, H in R['harnesses'].items():
+            if H['status'] == 'ok':
+                continue
+            if not changed:
+                undecided.append((n, f'harness {h} failed but no function under contract changed since registration'))
+                continue
+            d = os.path.join(ROOT, 'replays', pid)
+            os.makedirs(d, exist_ok=True)
+            path = os.path.join(d, f'{n}-{h}.json')
+            rp = H.get('replay') or {}
+            doc = {'property': pid, 'unit': n, 'engine': 'kani', 'obligation': f'{n}:{h}', 'function': unit.HARNESSES[h].get('fn'),
+                   'failed_checks': H['failed_checks'], 'counterexample': (H.get('playback') or {}).get('values'),
+                   'playback_test': (H.get('playback') or {}).get('test'), 'replay_on_real_code': rp,
+                   'failing_input': rp.get('input'), 'checker_cmd': R['cmd'], 'verifier_output': R.get('raw_tail', '')[-4000:],
+                   'replay_cmd': f'./check --replay {path}'}
+            with open(path, 'w') as f:
+                json.dump(doc, f, indent=1)
+            violations.append((n, h, path, bool(rp.get('confirmed'))))
+    if ev is not None:
+        cov = ev['coverage']
+        kob = sum(H['checks'] for R in kres for H in R['harnesses'].values())
+        kfail = sum(H['failed'] for R in kres for H in R['harnesses'].values())
+        cov['obligations'] += kob
+        cov['discharged'] += kob - kfail
+        cov['kani'] = [{'unit': R['unit'], 'status': R['status'], 'reason': R['reason'], 'cmd': R['cmd'], 'wall_s': round(R['wall_s'], 1),
+                        'harnesses': {h: {k: v for k, v in H.items() if k in ('status', 'checks', 'failed', 'time_s', 'covers', 'covers_sat', 'failed_checks')} for h, H in R['harnesses'].items()},
+                        'complete': 'loop-free harnesses over the full input domain (kani::any with the type invariant as the only assumption): a complete proof, not a bounded stand-in'} for R in kres]
+        cov['backend'] += ' + kani 0.68 / cbmc 6.11 (cadical)'
+        cov['checker_cmd'] += ' ;  ' + ' ; '.join(R['cmd'] for R in kres if R['cmd'])
+        ev['violations'] = ev.get('violations', 0) + len(violations)
+        ev['wall_s'] = round(ev['wall_s'] + sum(R['wall_s'] for R in kres), 2)
+        for n in kunits:
+            ev['assumptions'] += [f'{n}: {a}' for a in getattr(load_kani_unit(n), 'ASSUMPTIONS', [])]
+        with open(evp, 'w') as f:
+            json.dump(ev, f, indent=1)
+            f.write('\n')
+    for n, h, path, confirmed in violations:
+        print(f'VIOLATION property={pid} replay={path} obligation={n}:{h}' + ('' if confirmed else ' no-failing-input-found'), file=out)
+    for n, r in undecided:
+        print(f'UNDECIDED property={pid} unit={n} reason={r}', file=out)
+    print(f'property={pid} kani_units={len(kunits)} harnesses={sum(len(R["harnesses"]) for R in kres)} violations={len(violations)} undecided={len(undecided)} wall={sum(R["wall_s"] for R in kres):.0f}s', file=out)
+    if violations or rc == 1:
+        return 1
+    if undecided or rc == 2:
+        return 2
+    return 0
